@@ -175,7 +175,22 @@ Spec == Init /\ [][Next]_vars
 (* Expectations.                                                           *)
 (***************************************************************************)
 Complete == Len(meta.kinds) = 1 /\ Len(prog) >= 1
-Lines    == [j \in 1..Len(prog) |-> Voc[prog[j]]]
+
+\* The names of the definition chain p <- q <- r are permuted, a different permutation from program to
+\* program (chosen by the program's own lines): the statement is about reference GRAPHS, the byte
+\* order of the names must not matter (a reference chain X -> Z -> Y occurs with all 6 orders of the names).
+NamePerms == << [p |-> "p", q |-> "q", r |-> "r"], [p |-> "p", q |-> "r", r |-> "q"], [p |-> "q", q |-> "p", r |-> "r"],
+               [p |-> "q", q |-> "r", r |-> "p"], [p |-> "r", q |-> "p", r |-> "q"], [p |-> "r", q |-> "q", r |-> "p"] >>
+RECURSIVE ProgSum(_)
+ProgSum(j) == IF j = 0 THEN 0 ELSE prog[j] * (j + 1) + ProgSum(j - 1)
+NamePerm == IF Family = "def" THEN NamePerms[(ProgSum(Len(prog)) % 6) + 1] ELSE NamePerms[1]
+Ren(n) == IF n \in DOMAIN NamePerm THEN NamePerm[n] ELSE n
+RenPieces(ps) == [i \in 1..Len(ps) |-> IF ps[i].p = "ref" THEN PRef(Ren(ps[i].n)) ELSE ps[i]]
+Rename(l) == IF Family # "def" THEN l
+             ELSE IF l.k = "define" THEN [l EXCEPT !.n = Ren(@), !.ps = RenPieces(@)]
+             ELSE IF l.k \in {"entry", "prefix", "suffix"} THEN [l EXCEPT !.ps = RenPieces(@)]
+             ELSE l
+Lines    == [j \in 1..Len(prog) |-> Rename(Voc[prog[j]])]
 Res      == Compile(FileLines, Lines, Names)
 
 Render(l) == (IF "ind" \in DOMAIN l THEN l.ind ELSE "")
@@ -207,7 +222,7 @@ DefOrderFree ==
 
 Tags == { Voc[prog[j]].k : j \in 1..Len(prog) }
 
-Case == [lines  |-> [j \in 1..Len(prog) |-> Render(Voc[prog[j]])],
+Case == [lines  |-> [j \in 1..Len(prog) |-> Render(Lines[j])],
          flags  |-> Res.flags,
          expect |-> IF Res.err = "" THEN "ok" ELSE Res.err,
          lang   |-> IF Res.err = "" THEN { Str(s) : s \in LangD(Res.rnode, Res.flags) } ELSE {},
